@@ -31,6 +31,7 @@ type verifTok struct {
 	bpe      *BytePairEncoding
 	vocab    *Vocabulary
 	maxRunes int  // longest vocabulary entry, in runes
+	pre      string // BPE: pre-tokenizer pattern
 	covering bool // every (remapped) byte is a token
 }
 
@@ -265,22 +266,51 @@ func verifMaxRunes(v *Vocabulary) int {
 	return m
 }
 
+// verifPatterns: the pre-tokenizer patterns regenerated from /repo's model sources by the check
+// (VERIF_C20_PATTERNS: lines "<file>\t<pattern>"); without the file, the llama pattern known to the driver.
+func verifPatterns() (files, pats []string) {
+	if p := os.Getenv("VERIF_C20_PATTERNS"); p != "" {
+		if raw, err := os.ReadFile(p); err == nil {
+			for _, line := range strings.Split(string(raw), "\n") {
+				if f, pat, ok := strings.Cut(line, "\t"); ok && pat != "" {
+					dup := false
+					for _, q := range pats {
+						dup = dup || q == pat
+					}
+					if !dup {
+						files, pats = append(files, f), append(pats, pat)
+					}
+				}
+			}
+		}
+	}
+	if len(pats) == 0 {
+		files, pats = []string{"<driver default>"}, []string{verifLlamaPre}
+	}
+	return files, pats
+}
+
 func verifTokenizers(t testing.TB, enc [256]int) []*verifTok {
 	var out []*verifTok
-	// the byte-map probe's vocabulary (every rune < 0x180 a token, one piece per character) is a tokenizer
-	// of the run too, so that whatever disturbs the probe is also found as a concrete round-trip failure
-	mkBPE := func(name string, v *Vocabulary, covering bool) {
-		bpe := NewBytePairEncoding(verifLlamaPre, v)
-		out = append(out, &verifTok{name: name, family: "bpe", tp: bpe, bpe: &bpe, vocab: v, maxRunes: verifMaxRunes(v), covering: covering})
+	_, pats := verifPatterns()
+	mkBPEp := func(name, pre string, v *Vocabulary, covering bool) {
+		bpe := NewBytePairEncoding(pre, v)
+		out = append(out, &verifTok{name: name, family: "bpe", tp: bpe, bpe: &bpe, vocab: v, maxRunes: verifMaxRunes(v), covering: covering, pre: pre})
 	}
-	mkBPE("llama32", verifLlamaVocab(t), true)
+	mkBPE := func(name string, v *Vocabulary, covering bool) { mkBPEp(name, pats[0], v, covering) }
+	lv := verifLlamaVocab(t)
+	mkBPE("llama32", lv, true)
 	mkBPE("synth", verifSynthBPE(enc, nil), true)
 	mkBPE("synthgap", verifSynthBPE(enc, []byte{'q', 0xe4, ' '}), false)
+	// every other pre-tokenizer pattern found in the sources, with the real llama 3.2 vocabulary
+	for i, pat := range pats[1:] {
+		mkBPEp(fmt.Sprintf("llama32-pre%d", i+1), pat, lv, true)
+	}
 	sv := verifSynthSPM()
 	spm := NewSentencePieceModel(sv)
 	out = append(out, &verifTok{name: "spm", family: "spm", tp: spm, vocab: sv, maxRunes: verifMaxRunes(sv), covering: true})
 	pb := NewBytePairEncoding(`(?s).`, verifProbeVocab())
-	out = append(out, &verifTok{name: "probe", family: "bpe", tp: pb, bpe: &pb, vocab: pb.vocab, maxRunes: 12, covering: true})
+	out = append(out, &verifTok{name: "probe", family: "bpe", tp: pb, bpe: &pb, vocab: pb.vocab, maxRunes: 12, covering: true, pre: `(?s).`})
 	for _, tk := range out {
 		for i, s := range tk.vocab.Values {
 			if !utf8.ValidString(s) || s == "" {
@@ -660,6 +690,9 @@ func (tk *verifTok) runCase(enc [256]int, segs []verifSeg, add bool, out *zzveri
 	out.Add("tokens", len(ids))
 
 	// ---- L2 (property predicates on the real code only; addSpecial = false)
+	if tk.family == "bpe" {
+		tk.checkPartition(text, cl, out)
+	}
 	ids0, err := tk.tp.Encode(text, false)
 	if err != nil {
 		out.L2("encode-error", cl, err.Error())
@@ -719,6 +752,19 @@ func (tk *verifTok) runCase(enc [256]int, segs []verifSeg, add bool, out *zzveri
 				out.L2("special-literal", cl, fmt.Sprintf("ids=%s want=%s", verifIds(ids0), verifIds(want)))
 			}
 		}
+	}
+}
+
+// checkPartition: the real pre-tokenizer's pieces concatenate to its input (the hypothesis `hsplit` of
+// bpe_roundtrip), here on the whole text; opBPE checks the same on every text fragment.
+func (tk *verifTok) checkPartition(text, cl string, out *zzverif.Out) {
+	out.Count("l2_split_partition_checked")
+	cat := ""
+	for p := range tk.bpe.split(text) {
+		cat += p
+	}
+	if cat != text {
+		out.L2("split-partition", cl, fmt.Sprintf("pattern %q splits %q into pieces that concatenate to %q", tk.pre, clipq(text), clipq(cat)))
 	}
 }
 
@@ -919,13 +965,48 @@ func TestVerifC20(t *testing.T) {
 			}
 		}
 	}
+	// code point sweep: every pre-tokenizer pattern must match every Unicode scalar value (alone, after a
+	// letter, doubled after a space): with classes that cover every code point, the alternation leaves no gap
+	donePat := map[string]bool{}
+	for _, tk := range toks {
+		if tk.family != "bpe" || donePat[tk.pre] {
+			continue
+		}
+		donePat[tk.pre] = true
+		all := os.Getenv("VERIF_TIER") == "thorough"
+		for c := rune(0); c <= 0x10ffff; c++ {
+			if c >= 0xd800 && c <= 0xdfff || (!all && c >= 0x3400 && c%13 != 0) {
+				continue
+			}
+			out.Count("sweep_codepoints")
+			for _, text := range []string{string(c), "x" + string(c) + " " + string(c) + string(c)} {
+				cat := ""
+				for p := range tk.bpe.split(text) {
+					cat += p
+				}
+				if cat != text {
+					out.L2("split-partition", tk.caseLine(text, false), fmt.Sprintf("pattern %q splits %q into pieces that concatenate to %q", tk.pre, text, cat))
+				}
+			}
+		}
+	}
+	var pick []*verifTok
+	for _, tk := range toks {
+		w := map[string]int{"llama32": 4, "synth": 1, "synthgap": 1, "spm": 3, "probe": 1}[tk.name]
+		if w == 0 {
+			w = 2 // llama32-preK
+		}
+		for j := 0; j < w; j++ {
+			pick = append(pick, tk)
+		}
+	}
 	n := zzverif.EnvInt("VERIF_N", 2000)
 	// NewRng(seed) streams for consecutive seeds are one-step shifts of each other (SplitMix64 state =
 	// seed * increment): fork once so that different seeds give unrelated case sequences.
 	root := zzverif.NewRng(zzverif.Seed()).Fork()
 	for i := 0; i < n; i++ {
 		r := root.Fork()
-		tk := toks[[]int{0, 0, 0, 0, 1, 2, 3, 3, 3, 4}[r.Intn(10)]]
+		tk := pick[r.Intn(len(pick))]
 		segs := verifGenSegs(r, tk, out)
 		tk.runCase(enc, segs, r.Chance(1, 4), out)
 	}
